@@ -1371,7 +1371,7 @@ func cmdConc(args []string) error {
 				tot[k] += v
 			}
 		}
-		st.Extra = map[string]any{"episodes": results, "ops_total": tot, "f9": f9detail, "snapdup": sddetail, "halfinit": hidetail, "regsched": rsdetail, "regstress": rtdetail, "trace_hook": traceEnabled}
+		st.Extra = map[string]any{"episodes": results, "ops_total": tot, "f9": f9detail, "snapdup": sddetail, "halfinit": hidetail, "regsched": rsdetail, "regstress": rtdetail, "trace_hook": traceEnabled, "trace_events_total": traceTotal}
 		_ = WriteJSON(filepath.Join(*out, "stats.json"), st)
 	}
 	go watchdog(finish)
@@ -1381,7 +1381,7 @@ func cmdConc(args []string) error {
 		rsdetail = scenarioRegSched(*out, *regsched, cw)
 	}
 	if *regstress > 0 && *only < 0 {
-		rtdetail = scenarioRegStress(*out, *seed, *regstress)
+		rtdetail = scenarioRegStress(*out, *seed, *regstress, cw)
 	}
 	t0 := time.Now()
 	for k := 0; k < *n; k++ {
@@ -1399,7 +1399,9 @@ func cmdConc(args []string) error {
 		results = append(results, res)
 	}
 	if *f9 && *only < 0 {
+		traceReset()
 		d, err := scenarioF9(*out)
+		emitTrace(cw, "f9")
 		if err != nil {
 			f9detail = "scenario could not be set up: " + err.Error()
 		} else {
@@ -1407,7 +1409,9 @@ func cmdConc(args []string) error {
 		}
 	}
 	if *halfinit && *only < 0 {
+		traceReset()
 		d, err := scenarioHalfInit(*out)
+		emitTrace(cw, "halfinit")
 		if err != nil {
 			hidetail = "scenario could not be set up: " + err.Error()
 		} else {
@@ -1415,7 +1419,9 @@ func cmdConc(args []string) error {
 		}
 	}
 	if *snapdup > 0 && *only < 0 {
+		traceReset()
 		d, err := scenarioSnapDup(*out, *snapdup)
+		emitTrace(cw, "snapdup")
 		if err != nil {
 			sddetail = "scenario could not be set up: " + err.Error()
 		} else {
